@@ -7,7 +7,76 @@ use verif_harness::*;
 mod graphs;
 use graphs::*;
 
+/// Which `Topology<f64>` KernighanLin is run on.
+#[derive(Clone, Debug)]
+enum Topo {
+    /// sprs CsMatView (rows sorted; its own `edge_cut` override)
+    Csr,
+    /// harness-side adjacency lists, neighbours in shuffled order (the trait's `edge_cut`)
+    Adj,
+    /// `coupe::Grid` (neighbour order x-1, x+1, y-1, y+1, ...: not sorted; the trait's `edge_cut`)
+    Grid2(usize, usize),
+    Grid3(usize, usize, usize),
+}
+
+/// Adjacency lists as a topology: nothing is assumed on the order of the neighbours.
+struct AdjTopo(Vec<Vec<(usize, f64)>>);
+impl coupe::Topology<f64> for AdjTopo {
+    type Neighbors<'n> = std::iter::Cloned<std::slice::Iter<'n, (usize, f64)>> where Self: 'n;
+    fn len(&self) -> usize {
+        self.0.len()
+    }
+    fn neighbors(&self, vertex: usize) -> Self::Neighbors<'_> {
+        self.0[vertex].iter().cloned()
+    }
+}
+
+/// The rows `coupe::Grid` yields, in its order (axis by axis: coordinate - 1, then + 1).
+fn grid_adj(dims: &[usize]) -> Adj {
+    let n: usize = dims.iter().product();
+    let mut a = vec![Vec::new(); n];
+    for i in 0..n {
+        let mut pos = Vec::new();
+        let mut k = i;
+        for d in dims {
+            pos.push(k % d);
+            k /= d;
+        }
+        let mut stride = 1;
+        for (ax, d) in dims.iter().enumerate() {
+            if pos[ax] >= 1 {
+                a[i].push((i - stride, 1));
+            }
+            if pos[ax] + 1 < *d {
+                a[i].push((i + stride, 1));
+            }
+            stride *= d;
+        }
+    }
+    a
+}
+
+fn run_kl<T: coupe::Topology<f64> + Sync>(
+    t: T,
+    mut p: Vec<usize>,
+    weights: &[f64],
+    mp: Option<usize>,
+    mf: Option<usize>,
+    mb: usize,
+) -> Result<Vec<usize>, coupe::Error> {
+    coupe::KernighanLin {
+        max_passes: mp,
+        max_flips_per_pass: mf,
+        max_imbalance_per_flip: None,
+        max_bad_move_in_a_row: mb,
+    }
+    .partition(&mut p, (t, weights))
+    .map(|()| p)
+    .map_err(|_| coupe::Error::NotFound)
+}
+
 struct Case {
+    topo: Topo,
     fam: String,
     pfam: String,
     adj: Adj,
@@ -34,7 +103,35 @@ fn gen_limit(r: &mut Rng) -> Option<usize> {
 
 fn gen_case(r: &mut Rng, tier: &str) -> Case {
     let big = tier == "thorough";
-    let (gname, mut adj) = gen_graph(r, big);
+    let (mut gname, mut adj) = gen_graph(r, big);
+    let mut topo = Topo::Csr;
+    match r.below(10) {
+        0 | 1 => {
+            // the same graph as adjacency lists with shuffled rows
+            topo = Topo::Adj;
+            for row in adj.iter_mut() {
+                for i in (1..row.len()).rev() {
+                    let j = r.below(i as u64 + 1) as usize;
+                    row.swap(i, j);
+                }
+            }
+        }
+        2 | 3 => {
+            if r.chance(2, 3) {
+                let (w, h) = (r.range(1, if big { 5 } else { 4 }) as usize, r.range(1, 4) as usize);
+                topo = Topo::Grid2(w, h);
+                adj = grid_adj(&[w, h]);
+                gname = "Grid2";
+            } else {
+                let (w, h, d) = (r.range(1, 3) as usize, r.range(1, 3) as usize, r.range(1, 3) as usize);
+                topo = Topo::Grid3(w, h, d);
+                adj = grid_adj(&[w, h, d]);
+                gname = "Grid3";
+            }
+        }
+        _ => {}
+    }
+    let is_grid = matches!(topo, Topo::Grid2(..) | Topo::Grid3(..));
     let n = adj.len();
     let (ida, idb) = match r.below(8) {
         0 => (1, 0),
@@ -55,7 +152,7 @@ fn gen_case(r: &mut Rng, tier: &str) -> Case {
             p0[(i + 1) % n] = 11;
             p0[(i + 2) % n] = 12;
         }
-    } else if sel < 12 && n >= 2 {
+    } else if sel < 12 && n >= 2 && !is_grid {
         // malformed stream: outside the usage contract
         stream = "malformed_";
         match r.below(5) {
@@ -84,8 +181,14 @@ fn gen_case(r: &mut Rng, tier: &str) -> Case {
             }
         }
     }
+    let tname = match topo {
+        Topo::Csr => "",
+        Topo::Adj => "adjlist:",
+        _ => "",
+    };
     Case {
-        fam: format!("{}{}", stream, gname),
+        topo,
+        fam: format!("{}{}{}", stream, tname, gname),
         pfam: format!("partition/{}", pname),
         adj,
         wlen,
@@ -119,23 +222,30 @@ fn main() {
             }
         }
         let n = c.adj.len();
-        let (indptr, indices, data) = csr(&c.adj);
-        let dataf: Vec<f64> = data.iter().map(|x| *x as f64).collect();
         let weights = vec![1.0f64; c.wlen];
         let p02 = c.p0.clone();
         let (mp, mf, mb) = (c.mp, c.mf, c.mb);
-        let res = guarded(0, Duration::from_secs(20), move || {
-            let m = coupe::sprs::CsMat::new((n, n), indptr, indices, dataf);
-            let mut p = p02;
-            coupe::KernighanLin {
-                max_passes: mp,
-                max_flips_per_pass: mf,
-                max_imbalance_per_flip: None,
-                max_bad_move_in_a_row: mb,
+        let adj2 = c.adj.clone();
+        let topo2 = c.topo.clone();
+        let res = guarded(0, Duration::from_secs(20), move || match topo2 {
+            Topo::Csr => {
+                let (indptr, indices, data) = csr(&adj2);
+                let dataf: Vec<f64> = data.iter().map(|x| *x as f64).collect();
+                let m = coupe::sprs::CsMat::new((n, n), indptr, indices, dataf);
+                run_kl(m.view(), p02, &weights, mp, mf, mb)
             }
-            .partition(&mut p, (m.view(), &weights[..]))
-            .map(|()| p)
-            .map_err(|_| coupe::Error::NotFound)
+            Topo::Adj => {
+                let t = AdjTopo(adj2.iter().map(|r| r.iter().map(|(u, w)| (*u, *w as f64)).collect()).collect());
+                run_kl(&t, p02, &weights, mp, mf, mb)
+            }
+            Topo::Grid2(w, h) => {
+                let nz = |x: usize| std::num::NonZeroUsize::new(x).unwrap();
+                run_kl(coupe::Grid::new_2d(nz(w), nz(h)), p02, &weights, mp, mf, mb)
+            }
+            Topo::Grid3(w, h, d) => {
+                let nz = |x: usize| std::num::NonZeroUsize::new(x).unwrap();
+                run_kl(coupe::Grid::new_3d(nz(w), nz(h), nz(d)), p02, &weights, mp, mf, mb)
+            }
         });
         match &res {
             Guarded::Hang => hangs += 1,
@@ -148,8 +258,9 @@ fn main() {
             _ => {}
         }
         let coq = format!(
-            "mk15 {} {}%nat {} {} {} {}%N {}",
+            "mk15 {} {} {}%nat {} {} {} {}%N {}",
             coq_graph(&c.adj),
+            coq_bool(matches!(c.topo, Topo::Csr)),
             c.wlen,
             coq_nlist(c.p0.iter().map(|x| *x as u128)),
             coq_opt_n(c.mp),
@@ -163,8 +274,9 @@ fn main() {
             ""
         };
         let json = format!(
-            "{{{}\"graph\":{},\"weights_len\":{},\"partition\":{},\"max_passes\":{},\"max_flips_per_pass\":{},\"max_bad_move_in_a_row\":{},\"impl\":{}}}",
+            "{{{}\"topology\":{},\"graph\":{},\"weights_len\":{},\"partition\":{},\"max_passes\":{},\"max_flips_per_pass\":{},\"max_bad_move_in_a_row\":{},\"impl\":{}}}",
             kf,
+            json_str(&format!("{:?}", c.topo)),
             json_graph(&c.adj),
             c.wlen,
             json_usizes(&c.p0),
@@ -173,7 +285,7 @@ fn main() {
             c.mb,
             json_impl_partition(&res)
         );
-        let key = format!("{:?}|{}|{:?}|{:?}|{:?}|{}", c.adj, c.wlen, c.p0, c.mp, c.mf, c.mb);
+        let key = format!("{:?}|{:?}|{}|{:?}|{:?}|{:?}|{}", c.topo, c.adj, c.wlen, c.p0, c.mp, c.mf, c.mb);
         // non-trivial: in the contract stream, at least 4 vertices, two parts, at least one pass and one flip allowed
         let nontrivial = !c.fam.starts_with("kf_")
             && !c.fam.starts_with("malformed_")
